@@ -186,12 +186,12 @@ def arm_cond(ctx, o, label, all_labels):
 class Region:
     """Block-level DAG between start blocks and outcome blocks."""
 
-    def __init__(self, fn, starts, outcomes, atoms):
+    def __init__(self, fn, starts, outcomes, atoms, extra_stop=()):
         self.fn = fn
         self.ctx = Ctx(atoms)
         self.starts = list(starts)
         self.outcomes = outcomes  # name -> set(block idx)
-        self.stop = set()
+        self.stop = set(extra_stop)  # blocks at which the region ends without being an outcome (e.g. "the next item is read")
         for s in outcomes.values():
             self.stop |= set(s)
         self.dropped_back_edges = 0
@@ -450,7 +450,7 @@ def solve(lines, z3_bin=None):
     return "unknown", out[:200], dt
 
 
-def decides(funcs, fname, start, outcomes, atoms, spec, containing=None, declare=(), assume=None, what=""):
+def decides(funcs, fname, start, outcomes, atoms, spec, containing=None, declare=(), assume=None, what="", stop=None):
     """outcomes: {name: Ev | Arm}; spec: {name: smt bool over the atoms} — for every listed name the extracted predicate
     must be equivalent to the spec formula.  start: 'entry' | Ev (region starts at the successors of the matching block) | Arm."""
     fc = MF.FnCheck(funcs, fname, containing=containing)
@@ -478,7 +478,10 @@ def decides(funcs, fname, start, outcomes, atoms, spec, containing=None, declare
             return [MF.Result("inconclusive", "outcome %s (%s) matched nothing in %s" % (n, getattr(x, "name", "?"), fc.name))]
     MF.SITE_TAGS = True
     try:
-        reg = Region(fn, starts, ob, atoms)
+        extra = sorted(blocks_of(stop)) if stop is not None else []
+        if stop is not None and not extra:
+            return [MF.Result("inconclusive", "end of the decision region (%s) matched nothing in %s" % (getattr(stop, "name", stop), fc.name))]
+        reg = Region(fn, starts, ob, atoms, extra_stop=extra)
     except RecursionError:
         return [MF.Result("inconclusive", "decision region of %s too deep" % fc.name)]
     finally:
